@@ -146,6 +146,9 @@ class Executor(object):
         self.obls.append(Obligation(name, kind, list(st.pc), goal,
                                     getattr(node, 'lineno', 0), self.qualname, self.case.name,
                                     st.fp.copy()))
+        if kind == 'safety':
+            # the statement completes normally only if the implicit exception is not raised
+            st.pc.append(goal)
 
     def feasible(self, st, extra=None):
         if self.feas_ms <= 0:
@@ -989,11 +992,44 @@ class Executor(object):
 
     def fpop(self, st, node, opname, *args):
         r, obs = getattr(st.fp, opname)(*args)
+        if opname in ('mul', 'div', 'sqrt'):
+            for f in self.auto_instances(opname, *args, log=st.fp):
+                st.pc.append(f)
         for (lab, f) in obs:
             self.oblige(st, 'safety', lab, f, node)
-        for f in st.fp.facts[getattr(st, '_fp_seen', 0):]:
-            pass
         return r
+
+    def auto_instances(self, opname, *args, **kw):
+        """Magnitude/sign lemma instances added for every product, quotient and square root, so
+        that no-overflow obligations and the |e| <= 2^33 side condition of the absolute-error
+        fact are within reach of linear reasoning.  All are instances of proved lemmas."""
+        from .lemmas import inst
+        from fractions import Fraction
+        rv = lambda x: z3.RealVal(Fraction(x))
+        log = kw.get('log')
+        out = []
+        if opname == 'mul':
+            a, b = args
+            if FP.is_num(z3.simplify(a)) or FP.is_num(z3.simplify(b)):
+                return out
+            out.append(inst('mul_nonneg', a, b))
+            for ca in (1, 4, 2 ** 31, 2 ** 33):
+                for cb in (1, 4, 2 ** 31, 2 ** 33):
+                    out.append(inst('mul_abs', a, b, rv(ca), rv(cb)))
+        elif opname == 'div':
+            a, b = args
+            if FP.is_num(z3.simplify(b)):
+                return out
+            q = log.ops[-1].e
+            for cd in (Fraction(1, 2), Fraction(1, 2 ** 33)):
+                for ca in (4, 2 ** 33):
+                    out.append(inst('quot_abs', q, b, a, rv(cd), rv(ca)))
+        elif opname == 'sqrt':
+            (a,) = args
+            s_ = log.ops[-1].e
+            for c in (2 ** 17, 2 ** 32, 2 ** 34):
+                out.append(inst('sqrt_upper', s_, a, rv(c)))
+        return out
 
     def expr_BinOp(self, st, e):
         a = self.eval(st, e.left)
@@ -1020,9 +1056,13 @@ class Executor(object):
             if isinstance(op, ast.Mult):
                 if FP.is_num(z3.simplify(a.t)) or FP.is_num(z3.simplify(b.t)):
                     return V(INT, a.t * b.t)
-                r = z3.Int(fresh_name('imul'))
-                st.pc.append(z3.ToReal(r) == FP.exact_mul(z3.ToReal(a.t), z3.ToReal(b.t)))
+                r = FP.int_mul(a.t, b.t)
+                em = FP.exact_mul(z3.ToReal(a.t), z3.ToReal(b.t))
+                st.pc.append(z3.ToReal(r) == em)
+                st.fp.ops.append(FP.Op(z3.ToReal(r), z3.ToReal(r), 'imul', [z3.ToReal(a.t), z3.ToReal(b.t)]))
                 st.fp.landmark(r)
+                for f in self.auto_instances('mul', z3.ToReal(a.t), z3.ToReal(b.t)):
+                    st.pc.append(f)
                 return V(INT, r)
             if isinstance(op, ast.FloorDiv):
                 self.oblige(st, 'safety', 'division-by-zero', b.t != 0, node)
